@@ -17,15 +17,21 @@ from harness.util import rel_close
 
 RULE = ("generated programs: a source tree (depth <= 4, bool/int/float/str scalars and 1-3-d arrays, floats with "
         "units) defined locally, in a second file of the scratch directory, or in a base environment parsed "
-        "earlier; then injections (definitions and modifications, every slice form, own/adopted units), imports "
+        "earlier; then injections into every kind of host line (definitions, modifications, `$unit name = {ref}` with "
+        "and without own unit, option lines `= {ref}`, bare-reference `@case {ref}` clauses of if/else-if chains), every "
+        "slice form, own/adopted units, imports "
         "({?p.*}, {?p}, {?*}, bare under a group and prefixed), later modifications of source, host and imported "
         "nodes, property lines; plus a malformed stream (no/several matches, empty imports, bad slices, unknown "
         "sources), histories of parses over files rewritten between the parses, and the corpus of recon inputs "
         "first; non-trivial = program with at least one injection or "
         "import that the specification accepts or rejects (not 'outside'); distinct = canonical JSON of the program")
 ASSUMPTIONS = [
-    "no @case lines, functions, expressions or templates in the generated programs (C15/C18); conditions are "
-    "always-true comparisons, formats permissive, options contain every value the node takes (C16)",
+    "no functions, expressions or templates in the generated programs (C18); @case only as flat if/else-if/else "
+    "chains closed by @end whose conditions are literals or bare references to boolean nodes and whose bodies are "
+    "indented deeper (nesting, expression conditions and the closing rules are C15's; its check covers them); "
+    "!condition lines are always-true comparisons, formats permissive, options contain every value the node takes (C16)",
+    "hosts of an injection covered: typed definitions, modifications, $unit definitions, option lines, @case clauses; "
+    "a reference as the value of !format / !tags / !description / $source delivers text without a unit and is not generated",
     "values as structured literals: the text <-> literal map (lexer, json) is C13's; numbers are decimals with <= 3 "
     "digits after the point, compared with relative tolerance 1e-9; integer nodes are dimensionless and stay integral",
     "host and source have the same datatype, or a float host takes an int source; slices only on definition lines "
@@ -269,7 +275,12 @@ def line_text(l):
         ref = "{%s?%s}" % (l.get("source") or "", query_text(l["q"]))
         return ind + (l["prefix"] + " " + ref if l.get("prefix") else ref)
     if k == "unit":
-        return "%s$unit %s = %s%s" % (ind, l["name"], l["value"], " " + l["unit"] if l.get("unit") else "")
+        rhs = value_text(l["val"]) if "val" in l else l["value"]
+        return "%s$unit %s = %s%s" % (ind, l["name"], rhs, " " + l["unit"] if l.get("unit") else "")
+    if k == "case":
+        if l["kind"] == "cond":
+            return "%s@case %s" % (ind, value_text(l["val"]))
+        return ind + ("@else" if l["kind"] == "else" else "@end")
     if k == "prop":
         p = l["p"]
         if p == "constant":
@@ -282,6 +293,8 @@ def line_text(l):
             return ind + "!tags " + json.dumps(l["v"], separators=(",", ":"))
         if p == "description":
             return ind + '!description "%s"' % l["v"]
+        if p == "option" and "val" in l:
+            return ind + "= " + value_text(l["val"]) + (" " + l["unit"] if l.get("unit") else "")
         if p == "option":
             return ind + "= " + ('"%s"' % l["v"] if l.get("quoted") else l["v"]) + (" " + l["unit"] if l.get("unit") else "")
     raise ValueError(l)
@@ -299,7 +312,21 @@ def slice_objects(sl):
 def model_item(l):
     k = l["k"]
     if k == "unit":
-        return {"t": "unit", "name": l["name"], "value": l["value"], "unit": l.get("unit")}
+        if "val" in l:
+            return {"t": "unit", "name": l["name"], "ref": ref_text(l["val"]["ref"]), "unit": l.get("unit")}
+        return {"t": "unit", "name": l["name"], "value": val_json({"n": l["value"]}), "unit": l.get("unit")}
+    if k == "case":
+        it = {"t": "case", "indent": l["indent"], "kind": l["kind"]}
+        if l["kind"] == "cond":
+            if "lit" in l["val"]:
+                it["raw"] = val_json(l["val"]["lit"])
+            else:
+                it["ref"] = ref_text(l["val"]["ref"])
+        return it
+    if k == "prop" and l["p"] == "option":
+        if "val" in l:
+            return {"t": "optref", "ref": ref_text(l["val"]["ref"]), "unit": l.get("unit")}
+        return {"t": "prop", "p": "option", "v": option_val(l), "unit": l.get("unit")}
     if k == "prop":
         return {"t": "prop", "p": l["p"], "v": l.get("v"), "unit": l.get("unit")}
     if k == "group":
@@ -323,6 +350,11 @@ def model_item(l):
     return it
 
 
+def option_val(l):
+    """the literal of an option line as a value: text for str nodes, a number otherwise"""
+    return val_json(l["v"] if l.get("quoted") else {"n": l["v"]})
+
+
 def spec_val(val):
     if "lit" in val:
         return {"lit": val_json(val["lit"])}
@@ -332,8 +364,15 @@ def spec_val(val):
 
 def spec_stmt(l):
     k = l["k"]
-    if k in ("group", "unit"):
+    if k == "group":
         return None
+    if k == "unit":
+        v = spec_val(l["val"]) if "val" in l else {"lit": val_json({"n": l["value"]})}
+        return {"t": "unitdef", "name": l["name"], "v": v, "unit": l.get("unit")}
+    if k == "case":
+        if l["kind"] == "cond":
+            return {"t": "case", "v": spec_val(l["val"])}
+        return {"t": l["kind"]}
     if k == "def":
         return {"t": "def", "path": l["path"], "kw": l["kw"], "dims": l.get("dims") or [], "v": spec_val(l["val"]),
                 "unit": l.get("unit")}
@@ -343,6 +382,9 @@ def spec_stmt(l):
         return {"t": "mod", "path": l["path"], "v": spec_val(l["val"]), "unit": l.get("unit")}
     if k == "imp":
         return {"t": "imp", "path": l["dest"], "source": l.get("source"), "query": l["q"]}
+    if k == "prop" and l["p"] == "option":
+        v = spec_val(l["val"]) if "val" in l else {"lit": option_val(l)}
+        return {"t": "option", "path": l["path"], "v": v, "unit": l.get("unit")}
     if k == "prop":
         return {"t": l["p"], "path": l["path"], "v": l.get("v"), "unit": l.get("unit")}
     raise ValueError(l)
@@ -490,7 +532,7 @@ ATTRS = ["kw", "unit", "value", "constant", "condition", "format", "tags", "opti
 def lean_rec(j):
     r = dict(j)
     r["value"] = from_val_json(j.get("value"))
-    r["options"] = [[a, b] for a, b in j.get("options", [])]
+    r["options"] = [[from_val_json(a), b] for a, b in j.get("options", [])]
     r["dims"] = [[a, b] for a, b in j.get("dims", [])]
     return r
 
@@ -507,8 +549,39 @@ def rec_diff(impl, lean):
             isnum = impl["kw"] in ("int", "float")
             if isnum and impl["value"] is not None and impl["vunit"] != lean["unit"]:
                 return "value.unit"
+        elif a == "options":
+            if len(impl[a]) != len(lean[a]):
+                return a
+            for (ir, iu), (lv, lu) in zip(impl[a], lean[a]):
+                if iu != lu:
+                    return a
+                if impl["kw"] in ("int", "float"):
+                    try:
+                        iv = float(ir)
+                    except ValueError:
+                        return a
+                else:
+                    iv = ir
+                if not same_val(iv, lv):
+                    return a
         elif impl[a] != lean[a]:
             return a
+    return None
+
+
+def units_diff(impl_units, lean_units):
+    """custom units of the real environment against model / specification: names, values, units"""
+    iu = [[k[1:-1], v["value"], v["units"] or None] for k, v in impl_units.items()]
+    if [x[0] for x in iu] != [u[0] for u in lean_units]:
+        return "names"
+    for (n, iv, un), (_, lv, lu) in zip(iu, lean_units):
+        try:
+            if not same_val(float(iv), from_val_json(lv)):
+                return "value"
+        except (TypeError, ValueError):
+            return "value"
+        if un != lu:
+            return "unit"
     return None
 
 
@@ -556,6 +629,14 @@ def judge(ctx, prog, imp, res, stream):
         if imp["base_src_before"] != imp["base_src_after"]:
             ctx.violation("remote:nodes", "parsing on top of a base environment changed the nodes of a remote source",
                           dict(replay, impl_before=imp["base_src_before"], impl_after=imp["base_src_after"]))
+    # ---- the specification addresses the target of a property line by path, the code by "last node": when the
+    #      generator's idea of that node is not what the line acts on, its statement is not this program's
+    trace = model.get("trace") or []
+    for i, l in enumerate(prog["main"]):
+        if l["k"] == "prop" and i < len(trace) and trace[i] != ".".join(l["path"]):
+            ctx.count("generator.prop_target_mismatch")
+            spec = "outside"
+            break
     # ---- impl vs model (a difference on a program outside the property's domain is only counted)
     def disagree(detail):
         if spec == "outside":
@@ -580,10 +661,9 @@ def judge(ctx, prog, imp, res, stream):
                 if d:
                     disagree("node %s differs in %s: impl %s model %s" % (a["name"], d, a.get(d.split(".")[0]), b.get(d.split(".")[0])))
                     break
-            mu = [[u[0], u[1], u[2]] for u in model["env"]["units"]]
-            iu = [[k[1:-1], str(v["value"]), v["units"]] for k, v in imp["env"]["units"].items()]
-            if mu != iu:
-                disagree("custom units: impl %s model %s" % (iu, mu))
+            ud = units_diff(imp["env"]["units"], model["env"]["units"])
+            if ud:
+                disagree("custom units differ in %s: impl %s model %s" % (ud, imp["env"]["units"], model["env"]["units"]))
         # remote sources as the model parsed them
         for s in model.get("sources", []):
             inn = imp["sources"].get(s["name"])
@@ -631,6 +711,13 @@ def judge(ctx, prog, imp, res, stream):
         if imp["env"]["data"].get(k) is None and a["value"] is not None:
             ctx.violation("unreadable-entry", "node %s missing from data()" % k, replay)
             return "ok"
+    # custom units: the unit rule for `$unit name = {ref}` hosts
+    ud = units_diff(imp["env"]["units"], spec.get("units", []))
+    if ud:
+        ctx.violation("unitdef:%s" % ud, "custom units differ from the specification in %s: impl %s, spec %s" %
+                      (ud, {k: (v["value"], v["units"]) for k, v in imp["env"]["units"].items()}, spec.get("units")),
+                      dict(replay, impl=imp["env"]["units"], spec=spec.get("units")))
+        return "ok"
     # base and remote sources against the specification's own run
     if "base_after" in imp and "base" in spec:
         sb = {x["name"]: lean_rec(x) for x in spec["base"]}
@@ -710,6 +797,7 @@ class Gen:
         self.rcat = {}          # remote catalogue for source 'src'
         self.n = 0
         self.fam = rng.choice(FAMILIES)   # most units of one program come from one dimension
+        self.uncertain = False            # nodes exist that the catalogue does not list (clause bodies)
 
     def fresh(self, stem="h"):
         self.n += 1
@@ -780,7 +868,7 @@ class Gen:
         if p == "option":
             if not info.get("hasopt") or shape:
                 return None
-            v = num(rng.randint(100, 999))["n"] if kw == "int" else rng.choice(WORDS) + "x"
+            v = num(rng.randint(100, 999))["n"] if kw in ("int", "float") else rng.choice(WORDS) + "x"
             return {"k": "prop", "indent": indent, "p": "option", "v": v, "quoted": kw == "str", "unit": None, "path": path}
         if p == "description":
             return {"k": "prop", "indent": indent, "p": "description", "v": rng.choice(WORDS) + " " + rng.choice(WORDS), "path": path}
@@ -915,9 +1003,27 @@ def gen_program(rng, malformed=False):
         r = rng.random()
         paths = list(cat)
         if malformed and r < 0.35:
-            kind = rng.choice(["nopath", "wild", "impnone", "badslice", "nosource", "dims", "badunit"])
+            kind = rng.choice(["nopath", "wild", "impnone", "badslice", "nosource", "dims", "badunit", "casemissing",
+                               "unitmissing"])
             nm = g.fresh("q")
-            if kind == "nopath":
+            if kind == "casemissing":
+                # a later clause of a chain whose reference selects no node: rejected whatever came before
+                first = rng.random() < 0.5
+                main.append({"k": "def", "indent": 0, "name": nm, "path": [nm], "kw": "bool", "dims": [],
+                             "val": {"lit": first}, "unit": None})
+                main.append({"k": "case", "indent": 0, "kind": "cond",
+                             "val": {"ref": {"source": None, "q": ["exact", [nm]], "slices": []}}})
+                main.append({"k": "def", "indent": 2, "name": nm + "s", "path": [nm + "s"], "kw": "int", "dims": [],
+                             "val": {"lit": num(1)}, "unit": None})
+                main.append({"k": "case", "indent": 0, "kind": "cond",
+                             "val": {"ref": {"source": None, "q": ["exact", ["zz", "noflag"]], "slices": []}}})
+                main.append({"k": "def", "indent": 2, "name": nm + "s", "path": [nm + "s"], "kw": "int", "dims": [],
+                             "val": {"lit": num(2)}, "unit": None})
+                main.append({"k": "case", "indent": 0, "kind": "end"})
+            elif kind == "unitmissing":
+                main.append({"k": "unit", "indent": 0, "name": nm, "unit": None,
+                             "val": {"ref": {"source": src, "q": rng.choice([["exact", ["zz", "nope"]], ["all"]]), "slices": []}}})
+            elif kind == "nopath":
                 main.append({"k": "def", "indent": 0, "name": nm, "path": [nm], "kw": "float", "dims": [],
                              "val": {"ref": {"source": src, "q": ["exact", ["zz", "nope"]], "slices": []}}, "unit": None})
             elif kind == "wild":
@@ -952,7 +1058,68 @@ def gen_program(rng, malformed=False):
                     l["unit"] = "zzq"
                 main.append(l)
             break   # the rest of the text would not be reached
-        if r < 0.4:
+        if r < 0.05:
+            # `$unit name = {ref}` with and without a unit of its own: the host of the injection is not a node
+            nums = [p for p in paths if cat[p]["kw"] in ("int", "float") and not cat[p]["shape"]]
+            if not nums:
+                continue
+            p = rng.choice(nums)
+            own = rng.choice(UNITS) if rng.random() < 0.4 else None
+            main.append({"k": "unit", "indent": 0, "name": g.fresh("cu"), "unit": own,
+                         "val": {"ref": {"source": src, "q": ["exact", list(p)], "slices": []}}})
+        elif r < 0.09:
+            # an option line `= {ref}`: the option is the host (own unit or the referenced node's)
+            sc = [p for p in paths if cat[p]["kw"] in ("int", "float", "str") and not cat[p]["shape"]]
+            if not sc:
+                continue
+            p = rng.choice(sc)
+            info = cat[p]
+            kw = info["kw"]
+            fam = [f for f in FAMILIES if info["unit"] in f][0] if info["unit"] else None
+            nunit = (rng.choice(fam) if fam else (rng.choice(UNITS) if rng.random() < 0.5 else None)) if kw == "float" else None
+            nm = g.fresh("o")
+            val = gen_scalar(rng, kw)
+            main.append({"k": "def", "indent": 0, "name": nm, "path": [nm], "kw": kw, "dims": [], "val": {"lit": val},
+                         "unit": nunit})
+            main.append({"k": "prop", "indent": 2, "p": "option", "v": val["n"] if kw != "str" else val,
+                         "quoted": kw == "str", "unit": nunit, "path": [nm]})
+            own = None
+            if kw == "float" and rng.random() < 0.4:
+                own = rng.choice(fam) if fam else (rng.choice([f for f in FAMILIES if nunit in f][0]) if nunit else None)
+            main.append({"k": "prop", "indent": 2, "p": "option", "path": [nm], "unit": own,
+                         "val": {"ref": {"source": src, "q": ["exact", list(p)], "slices": []}}})
+            g.cat[(nm,)] = {"kw": kw, "shape": [], "unit": nunit, "frozen": True, "hasopt": True}
+        elif r < 0.14:
+            # an if / else-if chain whose conditions are bare references (or literals): every clause receives
+            # the current boolean value of the node it references, whatever the earlier clauses were
+            flags = []
+            for _ in range(rng.randint(1, 2)):
+                fn = g.fresh("f")
+                main.append({"k": "def", "indent": 0, "name": fn, "path": [fn], "kw": "bool", "dims": [],
+                             "val": {"lit": rng.random() < 0.4}, "unit": None})
+                if rng.random() < 0.5:
+                    main.append({"k": "mod", "indent": 0, "name": fn, "path": [fn], "val": {"lit": rng.random() < 0.5}, "unit": None})
+                g.cat[(fn,)] = {"kw": "bool", "shape": [], "unit": None, "frozen": False}
+                flags.append((None, (fn,)))
+            flags += [(src, p) for p in paths if cat[p]["kw"] == "bool" and not cat[p]["shape"]][:2]
+            body = g.fresh("s")
+            g.uncertain = True
+            nclauses = rng.randint(2, 3)
+            for i in range(nclauses):
+                if rng.random() < 0.8:
+                    fs, fp = rng.choice(flags)
+                    cv = {"ref": {"source": fs, "q": ["exact", list(fp)], "slices": []}}
+                else:
+                    cv = {"lit": rng.random() < 0.3}
+                main.append({"k": "case", "indent": 0, "kind": "cond", "val": cv})
+                main.append({"k": "def", "indent": 2, "name": body, "path": [body], "kw": "str", "dims": [],
+                             "val": {"lit": rng.choice(WORDS)}, "unit": None})
+            if rng.random() < 0.6:
+                main.append({"k": "case", "indent": 0, "kind": "else"})
+                main.append({"k": "def", "indent": 2, "name": body, "path": [body], "kw": "str", "dims": [],
+                             "val": {"lit": rng.choice(WORDS)}, "unit": None})
+            main.append({"k": "case", "indent": 0, "kind": "end"})
+        elif r < 0.4:
             # injection into a new definition
             p = rng.choice(paths)
             if rng.random() < 0.25:
@@ -1071,7 +1238,9 @@ def gen_program(rng, malformed=False):
             created = import_names(cat, q, dest)
             g.cat.update(created)
             imp_indent = main[-1]["indent"]
-            if created and rng.random() < 0.5:
+            # (after a @case chain the catalogue no longer knows every root node: `{?*}` may select more)
+            certain = not (g.uncertain and q[0] == "all" and not use_remote)
+            if created and certain and rng.random() < 0.5:
                 # property lines attached to the imported copy (they act on the last imported node) ...
                 last = list(created)[-1]
                 info = g.cat[last]
@@ -1222,6 +1391,36 @@ def corpus():
         L("group", indent=0, name="one"),
         L("def", indent=2, name="length", path=["one", "length"], kw="float", dims=[], val={"lit": F(1)}, unit="mm"),
         L("imp", indent=2, prefix=None, dest=["one"], source=None, q=["exact", ["setup", "length"]])]}))
+    # hosts that are not typed nodes: `$unit name = {ref}` (with / without own unit), option lines `= {ref}`
+    progs.append(("unit-and-option-hosts", {"sources": [], "base": None, "main": [
+        L("def", indent=0, name="w", path=["w"], kw="float", dims=[], val={"lit": F(1)}, unit="kg"),
+        L("mod", indent=0, name="w", path=["w"], val={"lit": F(2500)}, unit="g"),
+        L("def", indent=0, name="n", path=["n"], kw="int", dims=[], val={"lit": F(3)}, unit=None),
+        L("unit", indent=0, name="wu", unit=None, val=ref(["exact", ["w"]])),
+        L("unit", indent=0, name="wh", unit="cm", val=ref(["exact", ["w"]])),
+        L("unit", indent=0, name="nu", unit=None, val=ref(["exact", ["n"]])),
+        L("def", indent=0, name="x", path=["x"], kw="float", dims=[], val={"lit": F(2)}, unit="g"),
+        L("prop", indent=2, p="option", v="2", unit="g", path=["x"]),
+        L("prop", indent=2, p="option", path=["x"], unit=None, val=ref(["exact", ["w"]])),
+        L("prop", indent=2, p="option", path=["x"], unit="g", val=ref(["exact", ["w"]])),
+        L("def", indent=0, name="y", path=["y"], kw="int", dims=[], val={"lit": F(3)}, unit=None),
+        L("prop", indent=2, p="option", v="3", unit=None, path=["y"]),
+        L("prop", indent=2, p="option", path=["y"], unit=None, val=ref(["exact", ["n"]]))]}))
+    # if / else-if chains with bare-reference conditions: a later clause receives the current value
+    flag = lambda nm, v: L("def", indent=0, name=nm, path=[nm], kw="bool", dims=[], val={"lit": v}, unit=None)
+    body = lambda v: L("def", indent=2, name="solver", path=["solver"], kw="str", dims=[], val={"lit": v}, unit=None)
+    cond = lambda nm: L("case", indent=0, kind="cond", val=ref(["exact", [nm]]))
+    progs.append(("case-chain-later-true", {"sources": [], "base": None, "main": [
+        flag("hy", False), flag("mh", False),
+        L("mod", indent=0, name="mh", path=["mh"], val={"lit": True}, unit=None),
+        cond("hy"), body("ab"), cond("mh"), body("cd"), L("case", indent=0, kind="else"), body("ef"),
+        L("case", indent=0, kind="end"),
+        L("def", indent=0, name="after", path=["after"], kw="str", dims=[], val=ref(["exact", ["solver"]]), unit=None)]}))
+    progs.append(("case-chain-first-true", {"sources": [], "base": None, "main": [
+        flag("hy", True), flag("mh", True), cond("hy"), body("ab"), cond("mh"), body("cd"),
+        L("case", indent=0, kind="else"), body("ef"), L("case", indent=0, kind="end")]}))
+    progs.append(("case-chain-missing-reference", {"sources": [], "base": None, "main": [
+        flag("hy", False), cond("hy"), body("ab"), cond("nosuchflag"), body("cd"), L("case", indent=0, kind="end")]}))
     # base environment
     progs.append(("base", {"sources": [], "main": [
         L("mod", indent=0, name="a", path=["a"], val={"lit": F(5)}, unit="m"),
@@ -1270,7 +1469,8 @@ def prog_stream(ctx, progs, stream):
             ctx.count("%s.base_refused" % stream)
             continue
         verdict = judge(ctx, prog, imp, r["ok"], stream)
-        nrefs = sum(1 for l in prog["main"] if (l["k"] in ("def", "mod") and "ref" in l["val"]) or l["k"] == "imp")
+        nrefs = sum(1 for l in prog["main"] if (l["k"] in ("def", "mod", "unit", "case", "prop") and "ref" in l.get("val", {}))
+                    or l["k"] == "imp")
         ctx.case([stream, prog], verdict != "outside" and nrefs > 0,
                  {"main": text_of(prog["main"])[:400], "spec": verdict, "impl": imp["status"]})
         ctx.count("%s.spec_%s" % (stream, verdict))
@@ -1283,6 +1483,8 @@ def prog_stream(ctx, progs, stream):
                     ctx.count("slice.%s" % s[0])
             elif l["k"] == "imp":
                 ctx.count("import.%s" % l["q"][0])
+            elif l["k"] in ("unit", "case", "prop") and "ref" in l.get("val", {}):
+                ctx.count("inject.%s" % ("option" if l["k"] == "prop" else l["k"]))
         dests = [tuple(l["dest"]) for l in prog["main"] if l["k"] == "imp"]
         for l in prog["main"]:
             if l["k"] == "prop" and any(tuple(l["path"][:len(d)]) == d for d in dests):
